@@ -32,8 +32,9 @@ PROPS = {
         title='comparisons exact, equal numbers hash equally', level='proof', engines=[],
         claim='mpf_cmp returns the sign of the exact difference (nan excluded), mpf_lt/le/gt/ge agree with exact order and '
               'are False for nan, mpf_eq is exact, mpf_sign exact; mpf_hash equals CPython\'s numeric hash formula '
-              '(reduction modulo 2**61-1 with 2**exp reduced through 2**61 == 1) for every canonical value including '
-              'negative exponents. Proved for all inputs from the real function bodies.',
+              '(reduction modulo 2**61-1 with 2**exp reduced through 2**61 == 1, -1 mapped to -2) for every canonical value '
+              'including negative exponents; mpc_hash equals CPython\'s complex combination (signed 64-bit wrap). '
+              'Proved for all inputs from the real function bodies.',
         note=KERNEL_NOTE + ' The statement "CPython hashes ints/floats by this formula" is the trusted oracle; '
              'mpc_hash, mpq and the context-level __eq__/__hash__ wrappers are not yet under contract.',
         technique='deductive: AST->z3 verification conditions from sidecar contracts'),
@@ -42,6 +43,25 @@ PROPS = {
         claim='Every kernel function under contract that takes (prec, rnd) returns a mantissa of at most prec bits when '
               'prec > 0 (ensures_bits), for all inputs and modes; proved from the real bodies.',
         note=KERNEL_NOTE + ' Elementary/special functions and the context layer are not yet covered by this clause.',
+        technique='deductive: AST->z3 verification conditions from sidecar contracts'),
+    'C04': dict(
+        title='complex arithmetic correctly rounded per component', level='proof', engines=[],
+        claim='For all canonical operands, precisions and rounding modes each component of mpc_add, mpc_sub, mpc_add_mpf, '
+              'mpc_sub_mpf, mpc_pos, mpc_neg, mpc_conjugate, mpc_mul (finite operands), mpc_mul_mpf, mpc_mul_int is the '
+              'correctly rounded value of the exact component (sum/difference of exact products for mpc_mul), is canonical '
+              'and has at most prec bits: proved by composition of the libmpf contracts from the real libmpc bodies. '
+              'Not covered (stated): mpc_square, mpc_pow_int, and the modulus-error clause for mpc_div/reciprocal/negative powers.',
+        note=KERNEL_NOTE,
+        technique='deductive: AST->z3 verification conditions; callee contracts of libmpf proved under C02'),
+    'C06': dict(
+        title='integer-part functions and modulo follow their exact definitions', level='proof', engines=[],
+        claim='round_int, to_int (all modes and the default truncation), mpf_round_int / mpf_floor / mpf_ceil / mpf_nint '
+              '(exact integer result when called without precision; canonical and at most prec bits otherwise), to_rational, '
+              'and mpf_mod (x mod y = x - y*floor(x/y) with the sign of y, correctly rounded; ZeroDivisionError exactly for a '
+              'zero divisor; nan for non-finite operands) satisfy their mathematical definitions for all inputs: proved from '
+              'the real function bodies. Not covered: the value clause of floor/ceil/nint/frac when a precision is given '
+              '(composition through an existential intermediate), complex variants.',
+        note=KERNEL_NOTE,
         technique='deductive: AST->z3 verification conditions from sidecar contracts'),
     'C11': dict(
         title='working precision restored on every exit', level='proof', engines=['precframe'], no_units=True,
@@ -59,8 +79,6 @@ PROPS = {
 
 NOT_APPLICABLE = {
     'C03': 'not built yet in this session (planned: direction invariant of mpf_pow_int by contract)',
-    'C04': 'not built yet (libmpc contracts)',
-    'C06': 'not built yet (mpf_round_int/floor/ceil/nint/frac/mod contracts)',
     'C07': 'not built yet (from_str numeric core contract + bounded parsing)',
     'C08': 'round-trip/nearest-decimal needs a two-sided error analysis of to_digits_exp mixing floats, radix conversion and string slicing: outside what VCs over integers can decide; bounded-only tier not built',
     'C09': 'not built yet (from_float/to_float under assumed IEEE builtin contracts)',
